@@ -32,7 +32,20 @@ def check (toks : List String) : Option String := do
   let (i, as) ← parse toks
   pure (verdicts i as)
 
+/-- `svrp.costsbatch T L | costs[0..T-1] | row₀ | row₁ | …`: the cost table the batched loop of `_get_reward`
+builds for the action rows (each of length L): `table=<row₀ entries>;<row₁ entries>;…` (L+1 entries per row) -/
+def costsbatch (toks : List String) : Option String := do
+  let (hd :: co :: rows) ← parseSections toks | none
+  let [t, l] := hd | none
+  let i : Rl4co.Svrp.Inst :=
+    { n := 0, T := t.toNat, techs := fun _ => 0, skills := fun _ => 0, costs := fn1 co, D := fun _ _ => 0 }
+  let rs := rows.map toNats
+  let len := l.toNat + 1
+  let tab := Rl4co.Svrp.costsBatch i len rs
+  let out := (List.range rs.length).map (fun b => intsStr ((List.range len).map (fun p => tab b p)))
+  pure s!"table={";".intercalate out}"
+
 def handlers : List (String × (List String → Option String)) :=
-  [("svrp.episode", episode), ("svrp.check", check)]
+  [("svrp.episode", episode), ("svrp.check", check), ("svrp.costsbatch", costsbatch)]
 
 end Rl4co.Driver.Svrp
